@@ -1,6 +1,7 @@
 import IdModel.Gen.C05
 /-!
-Dispositions of the panic-capable sites of the files property C05 is anchored in.  The inventory itself is regenerated
+Dispositions of the panic-capable sites of the library's non-test source (the files property C05 is anchored in and, since
+the fourth session, every other source file of the library crates).  The inventory itself is regenerated
 from the source on every run (`IdModel.Gen.C05.sites`); this table is written by hand and says, for each site, why it
 cannot be reached with externally supplied data — or that it could (`repaired`: the site is gone from the inventory
 since the `fix:` commit; the entry stays as a record and matches nothing).
@@ -53,7 +54,39 @@ def table : List (Site × Disp) := [
   (("credential/integrity.rs", "alg", "unwrap", 1), .proved "C05.integrity_accessors_total"),
   (("credential/integrity.rs", "digest", "unwrap", 1), .proved "C05.integrity_accessors_total"),
   (("credential/integrity.rs", "digest_bytes", "unwrap", 1), .proved "C05.integrity_accessors_total"),
-  (("storage/method_digest.rs", "unpack", "index", 2), .proved "C05.digest_never_panics")
+  (("storage/method_digest.rs", "unpack", "index", 2), .proved "C05.digest_never_panics"),
+  -- every other non-test source file of the library crates (inventoried since the fourth session)
+  (("core/common/one_or_many.rs", "from", "expect", 1), .guarded "pop after the test len() == 1"),
+  (("core/common/one_or_many.rs", "push", "unreachable", 1), .guarded "the value just matched as One is replaced and matched again; C19 op histories exercise push from every state"),
+  (("core/common/one_or_set.rs", "append", "unreachable", 1), .guarded "the value just matched as One is replaced and matched again; C19 op histories exercise append from every state"),
+  (("core/common/one_or_set.rs", "map", "expect", 1), .guarded "pop after the test len() == 1 (C19: map / try_map of every reachable value)"),
+  (("core/common/one_or_set.rs", "new_set", "expect", 1), .guarded "pop after the test len() == 1 (C19 constructor paths)"),
+  (("core/common/one_or_set.rs", "try_map", "expect", 1), .guarded "pop after the test len() == 1"),
+  (("credential/credential/linked_domain_service.rs", "domains", "expect", 1), .proved "C05.linked_domain_total"),
+  (("credential/credential/linked_domain_service.rs", "domains", "unreachable", 1), .proved "C05.linked_domain_total"),
+  (("credential/credential/linked_domain_service.rs", "new", "expect", 1), .proved "C05.linked_domain_new"),
+  (("credential/credential/linked_verifiable_presentation_service.rs", "new", "expect", 1), .proved "C05.linked_vp_new"),
+  (("credential/credential/linked_verifiable_presentation_service.rs", "verifiable_presentation_urls", "unreachable", 1), .proved "C05.linked_vp_total"),
+  (("credential/revocation/status_list_2021/entry.rs", "from", "unwrap", 2), .invariant "a StatusList2021Entry serialises to a JSON object with a URL id and a type string, which is what Status deserialises from (entry `slentry` converts every accepted entry)"),
+  (("credential/sd_jwt_vc/builder.rs", "default", "unwrap", 1), .internal "builder over the constant empty JSON object"),
+  (("credential/sd_jwt_vc/builder.rs", "finish", "expect", 1), .internal "issuer side: inserting a serde_json Value as a claim"),
+  (("credential/sd_jwt_vc/builder.rs", "new_from_credential", "expect", 2), .internal "issuer side: the JWT claims of a credential serialise to an object with a vc member (C07 model: toClaims always has vc)"),
+  (("credential/sd_jwt_vc/builder.rs", "new_from_credential", "unreachable", 1), .internal "issuer side: the vc member of serialised claims is an object"),
+  (("credential/sd_jwt_vc/claims.rs", "from", "unwrap", 1), .internal "serialising a Status value into a JSON value cannot fail"),
+  (("credential/sd_jwt_vc/metadata/vc_type.rs", "validate_credential_impl", "unreachable", 1), .guarded "reached only when is_immediate is false, i.e. the schema is present and is not the Object variant; TypeSchema has the two variants Uri and Object"),
+  (("credential/sd_jwt_vc/metadata/vc_type.rs", "validate_credential_impl", "unwrap", 1), .guarded "is_immediate is true when the schema is absent (unwrap_or(true)), and this branch requires it to be false"),
+  (("iota_core/document/iota_document.rs", "new_with_id", "expect", 1), .internal "building an empty document around an id"),
+  (("iota_core/document/iota_document.rs", "set_controller", "expect", 1), .guarded "new_set of a set that was just tested to be non-empty"),
+  (("storage/key_storage/bls.rs", "encode_bls_jwk", "expect", 1), .internal "non-default feature jpt-bbs-plus; projection of a freshly encoded EC key"),
+  (("storage/key_storage/ed25519.rs", "expand_secret_jwk", "unwrap", 1), .invariant "in the default build every stored JWK is an Ed25519 OKP key: generate encodes one and insert refuses every other key type / algorithm (C15 model, insert_spec); with the non-default feature jpt-bbs-plus a BLS key can be stored and this invariant is NOT claimed"),
+  (("storage/key_storage/memstore.rs", "generate", "expect", 1), .internal "projection of a freshly encoded OKP key (to_public is None only for oct)"),
+  (("storage/key_storage/memstore.rs", "sign_bbs", "expect", 1), .internal "non-default feature jpt-bbs-plus"),
+  (("storage/key_storage/memstore.rs", "update_signature", "expect", 1), .internal "non-default feature jpt-bbs-plus"),
+  (("storage/storage/timeframe_revocation_ext.rs", "update", "unwrap", 4), .internal "non-default feature jpt-bbs-plus; serialising a Duration"),
+  (("ecdsa_verifier/secp256k1.rs", "verify", "unwrap", 1), .guarded "the CtOption was just tested with is_none (the length panic above it, not a lexical site, was found by the key walk and repaired: b8f3b91)"),
+  (("ecdsa_verifier/secp256r1.rs", "verify", "unwrap", 1), .guarded "the CtOption was just tested with is_none (same repair)"),
+  (("stronghold/ed25519.rs", "expand_secret_jwk", "unwrap", 1), .invariant "only called from insert after the key type was checked to be Ed25519 (C15 Stronghold variant)"),
+  (("stronghold/storage/mod.rs", "get_stronghold", "unreachable", 1), .internal "the only constructor wraps SecretManager::Stronghold")
 ]
 
 def disposition (s : Site) : Option Disp := (table.find? (fun e => e.1 == s)).map (·.2)
